@@ -98,7 +98,7 @@ def run(chk: core.Check, tier: str, seed: int) -> None:
         chk.nontrivial.add((tuple(r["q"]), str(r["doc"])[:300]))
     chk.sample({"query": core.dec_text(recs[5]["q"]), "doc": core.dec_value(recs[5]["doc"]), "locs": recs[5]["locs"]})
     common.judge(chk, recs, "c06", what="Trace: comparison records vs JsonVal!Cmp",
-                 only=lambda c: not c.startswith(("C03", "C04", "C05", "C13")))
+                 only=lambda c: c.startswith("C13 find") or not c.startswith(("C03", "C04", "C05", "C13")))
     chk.exhaustive = tier != "quick"
     chk.rule = (
         f"ordered pairs over {len(COMPARANDS)} comparands (numbers incl. equal int/float and -0.0, strings incl. non-BMP, "
